@@ -1287,7 +1287,10 @@ func (g *G) computedStmt(d int) []*Node {
 	// the body reads caller variables at evaluation time; keep it an int expression over existing vars
 	saveSide := g.O.SideFx
 	g.O.SideFx = false
+	saveLoop := g.loopDepth
+	g.loopDepth = 0 // the body is a code block of its own: a loop around the definition is not its loop
 	e := g.compBody(g.intExpr(d - 1))
+	g.loopDepth = saveLoop
 	g.O.SideFx = saveSide
 	g.Env.Put(&VarInfo{Name: name, T: TComp, Ret: TInt, Len: -1})
 	return []*Node{&Node{K: "setc", S: name, Kids: []*Node{e}}}
